@@ -227,6 +227,13 @@ def run(chk, db, tier):
     chk.guard("R4", rule_r4, db)
     from . import sigwrites
     sigwrites.run_v4(chk, db)
+    # prerequisite for "altering the body of a signed-payload request is refused": the bytes whose digest is compared are the whole body
+    # (decided for C02)
+    from . import c02
+    from ..report import Sub
+    sub = Sub(chk, "C02")
+    sub.rule("R5", "buffered body: what extract_full_body returns was read from the request body to its end; non-empty bytes only through `len == Content-Length`")
+    sub.guard("R5", c02.rule_r5, db)
 
 
 META = {
